@@ -10,7 +10,7 @@ import (
 // and pointed-to objects. It is the "whatever the change added, wherever it lives"
 // companion of the hook-based footprint: a per-search append to any slice on the
 // Engine, a searcher, a pooled object or a borrowed helper shows up here.
-// Functions, channels and unsafe.Pointer fields are not followed.
+// Functions, channels and bare unsafe.Pointer fields are not followed; atomic.Pointer[T] is.
 type deepSizer struct {
 	seen   map[unsafe.Pointer]bool
 	total  int
@@ -73,6 +73,19 @@ func (d *deepSizer) walk(v reflect.Value, depth int) {
 			d.walk(v.Elem(), depth+1)
 		}
 	case reflect.Struct:
+		if t := v.Type(); t.PkgPath() == "sync/atomic" && len(t.Name()) > 8 && t.Name()[:8] == "Pointer[" {
+			// atomic.Pointer[T] keeps its referent behind an unsafe.Pointer: recover *T from
+			// the Load method's result type and follow it like an ordinary pointer (a list
+			// threaded through atomic pointers is as reachable as any other)
+			if m, ok := reflect.PointerTo(t).MethodByName("Load"); ok && m.Type.NumOut() == 1 {
+				for i := 0; i < v.NumField(); i++ {
+					if f := v.Field(i); f.Kind() == reflect.UnsafePointer && !f.IsNil() {
+						d.walk(reflect.NewAt(m.Type.Out(0).Elem(), f.UnsafePointer()), depth+1)
+					}
+				}
+			}
+			return
+		}
 		tn := ""
 		if d.exclBounded {
 			tn = v.Type().String()
@@ -140,7 +153,7 @@ func hasPointers(t reflect.Type) bool {
 	ptrCache[t] = false // break cycles
 	res := false
 	switch t.Kind() {
-	case reflect.Ptr, reflect.Interface, reflect.Slice, reflect.Map, reflect.String:
+	case reflect.Ptr, reflect.Interface, reflect.Slice, reflect.Map, reflect.String, reflect.UnsafePointer:
 		res = true
 	case reflect.Struct:
 		for i := 0; i < t.NumField(); i++ {
